@@ -17,6 +17,8 @@ import (
 	"sync"
 	"sync/atomic"
 
+	"github.com/goreleaser/nfpm/v2"
+
 	"verifharness/internal/dec"
 	"verifharness/internal/ev"
 	"verifharness/internal/gen"
@@ -365,7 +367,7 @@ func c04(run *ev.Run, tier string) {
 				o := gen.DefaultOpts()
 				o.Big = 1
 				o.Overrides = i%4 == 1
-				o.Changelog = false
+				o.Changelog = i%3 == 0
 				if i%10 == 9 {
 					o.NEntries = [2]int{0, 0} // empty payloads
 				}
@@ -493,6 +495,10 @@ func c04(run *ev.Run, tier string) {
 		})
 	}
 	c04Spellings(run)
+	c04AcceptedBytes(run)
+	if bin := nfpmBin(run); bin != "" {
+		c04CLIOverExisting(run, bin)
+	}
 	c04ApkAlignment(run)
 	run.Set("archives_checked", archives)
 	run.Set("archives_per_format", perFormat)
@@ -694,4 +700,109 @@ func gnuTarAgrees(label string, b []byte, a *dec.TarArchive) []problem {
 		}
 	}
 	return nil
+}
+
+// c04CLIOverExisting: the command line tool writes over a larger file that
+// already exists at the target; the result must be the package and nothing else.
+func c04CLIOverExisting(run *ev.Run, bin string) {
+	dir := newWorkDir("c04-cli")
+	defer removeWorkDir(dir)
+	pf := filepath.Join(dir, "p.txt")
+	_ = os.WriteFile(pf, []byte("payload\n"), 0o644)
+	s := &gen.Spec{Name: "overwrite", Arch: "amd64", Version: "1.0.0", Maintainer: "O <o@example.com>", Description: "d", MTime: 1500000000}
+	s.RPM.BuildHost = "verif-host"
+	s.Contents = []*gen.Content{{Src: pf, Dst: "/opt/overwrite/p.txt"}}
+	cfgp := filepath.Join(dir, "nfpm.yaml")
+	_ = os.WriteFile(cfgp, []byte(s.YAML()), 0o644)
+	ext := map[string]string{"deb": ".deb", "rpm": ".rpm", "apk": ".apk", "ipk": ".ipk", "archlinux": ".pkg.tar.zst"}
+	for _, f := range formats {
+		ref := buildYAML(s.YAML(), f)
+		if ref.Err != nil {
+			continue
+		}
+		target := filepath.Join(dir, "existing"+ext[f])
+		_ = os.WriteFile(target, bytes.Repeat([]byte("OLD PACKAGE BYTES "), 20000), 0o644)
+		so, se, code, err := runCmd(nil, dir, nil, bin, "package", "-f", cfgp, "-p", f, "-t", target)
+		run.Case("cli-over-larger-existing-file|"+f, true)
+		if err != nil || code != 0 {
+			run.Violate("C04/"+f+"/cli-build-failed", map[string]any{"output": ev.Short(string(so)+string(se), 300)})
+			continue
+		}
+		got, _ := os.ReadFile(target)
+		p := dec.Decode(f, got, false)
+		probs := structural(f, got, p, false, false)
+		if len(got) != len(ref.Bytes) {
+			probs = append(probs, problem{"trailing-or-missing-bytes", fmt.Sprintf("file is %d bytes, the package is %d bytes", len(got), len(ref.Bytes))})
+		}
+		for _, x := range probs {
+			run.Violate("C04/"+f+"/over-existing-file/"+x.kind, map[string]any{"detail": ev.Short(x.detail, 300)})
+		}
+	}
+}
+
+// countingWriter fails from write k on and keeps what it accepted.
+type c04Writer struct {
+	k, calls int
+	buf      bytes.Buffer
+}
+
+func (w *c04Writer) Write(p []byte) (int, error) {
+	i := w.calls
+	w.calls++
+	if w.k >= 0 && i >= w.k {
+		return 0, fmt.Errorf("verif: destination full")
+	}
+	return w.buf.Write(p)
+}
+
+// c04AcceptedBytes: whenever Package reports success, the bytes the destination
+// accepted must be a well-formed package - also when the destination refused a
+// write somewhere (signed debs with odd/even signature sizes, every write index).
+func c04AcceptedBytes(run *ev.Run) {
+	dir := newWorkDir("c04-acc")
+	defer removeWorkDir(dir)
+	pf := filepath.Join(dir, "p.txt")
+	_ = os.WriteFile(pf, []byte("payload\n"), 0o644)
+	for _, f := range []string{"deb", "deb-signed-odd", "deb-signed-even", "rpm", "apk", "ipk", "archlinux"} {
+		format := strings.SplitN(f, "-", 2)[0]
+		s := &gen.Spec{Name: "accepted", Arch: "amd64", Version: "1.0.0", Maintainer: "A <a@example.com>", Description: "d", MTime: 1500000000}
+		s.RPM.BuildHost = "verif-host"
+		s.Contents = []*gen.Content{{Src: pf, Dst: "/opt/accepted/p.txt"}}
+		siglen := map[string]int{"deb-signed-odd": 101, "deb-signed-even": 100}[f]
+		build := func(w io.Writer) error {
+			cfg, err := parseYAML(s.YAML(), nil)
+			if err != nil {
+				return err
+			}
+			info, err := infoFor(&cfg, format)
+			if err != nil {
+				return err
+			}
+			if siglen > 0 {
+				info.Deb.Signature.SignFn = func(io.Reader) ([]byte, error) { return bytes.Repeat([]byte("s"), siglen), nil }
+			}
+			p, _ := nfpm.Get(format)
+			return p.Package(info, w)
+		}
+		probe := &c04Writer{k: -1}
+		if err := build(probe); err != nil {
+			continue
+		}
+		for k := 0; k < probe.calls; k++ {
+			w := &c04Writer{k: k}
+			err := build(w)
+			run.Case(fmt.Sprintf("accepted-bytes|%s|%d", f, k), true)
+			if err != nil {
+				continue // reported: nothing is claimed about the partial bytes
+			}
+			p := dec.Decode(format, w.buf.Bytes(), false)
+			probs := structural(format, w.buf.Bytes(), p, siglen > 0, false)
+			if !bytes.Equal(w.buf.Bytes(), probe.buf.Bytes()) {
+				probs = append(probs, problem{"success-reported-for-different-bytes", fmt.Sprintf("%d bytes accepted, complete package is %d bytes", w.buf.Len(), probe.buf.Len())})
+			}
+			for _, x := range probs {
+				run.Violate("C04/"+format+"/success-with-refused-write/"+x.kind, map[string]any{"variant": f, "k": k, "detail": ev.Short(x.detail, 300)})
+			}
+		}
+	}
 }
